@@ -2,10 +2,10 @@ package main
 
 import (
 	"fmt"
-	"path"
 	"go/token"
 	"go/types"
 	"os"
+	"path"
 	"sort"
 	"strings"
 
@@ -15,19 +15,19 @@ import (
 )
 
 type Program struct {
-	Root      string
-	ModPath   string
-	Fset      *token.FileSet
-	Prog      *ssa.Program
-	Pkgs      map[string]*ssa.Package // by import path (module packages requested)
-	AllPkgs   []*ssa.Package
-	Contracts *Contracts
-	globals   map[*ssa.Global]int
-	storedTo  map[*ssa.Global]bool // written outside package initialisers
-	funcIDs   map[*ssa.Function]int
-	funcIndex map[string]*ssa.Function
-	typesPkgs map[string]*types.Package
-	qualIndex map[string]*FuncContract
+	Root       string
+	ModPath    string
+	Fset       *token.FileSet
+	Prog       *ssa.Program
+	Pkgs       map[string]*ssa.Package // by import path (module packages requested)
+	AllPkgs    []*ssa.Package
+	Contracts  *Contracts
+	globals    map[*ssa.Global]int
+	storedTo   map[*ssa.Global]bool // written outside package initialisers
+	funcIDs    map[*ssa.Function]int
+	funcIndex  map[string]*ssa.Function
+	typesPkgs  map[string]*types.Package
+	qualIndex  map[string]*FuncContract
 	EdgeCovers bool
 	CurPkgPath string // package of the unit being generated
 }
